@@ -37,7 +37,11 @@ def gen_sweep(tier, rng):
                     if minute >= 1410 or minute < 5:     # the critical end of the day: everything
                         combos = [(c, s, l) for c in ("start", "stop") for s in ("d", "y", "m") for l in ("today", "yday", "both", "old", "yday12", "none12")]
                 else:
-                    combos = [(c, s, l) for c in ("start", "stop", "switch") for s in ("d", "t", "y", "m", "x") for l in LAYOUTS]
+                    # the full product over the 24-hour layouts; the 12-hour layouts in full during the hours around noon and
+                    # midnight (where their notation has its special cases) and sampled elsewhere
+                    full12 = minute < 65 or 715 <= minute < 785 or minute >= 1375
+                    combos = [(c, s, l) for c in ("start", "stop", "switch") for s in ("d", "t", "y", "m", "x") for l in LAYOUTS
+                              if not l.endswith("12") or full12 or rng.random() < 0.1]
                 for cmd, sel, lay in combos:
                     now = datetime.datetime(day.year, day.month, day.day, minute // 60, minute % 60)
                     ds = sel
